@@ -620,6 +620,9 @@ impl Vm {
         self.shadow_stack
             .push_bytecode(current_pc, frame.code_block().source_info.clone());
 
+        #[cfg(boa_verif)]
+        crate::verif::on_frame_push(frame.code_block(), self.frames.len() + 1);
+
         self.frames.push(frame);
     }
 
@@ -783,6 +786,9 @@ impl Context {
     where
         F: FnOnce(&mut Context, Opcode) -> ControlFlow<CompletionRecord>,
     {
+        #[cfg(boa_verif)]
+        crate::verif::sample_depths(self);
+
         #[cfg(feature = "fuzz")]
         {
             use crate::error::EngineError;
